@@ -19,53 +19,19 @@
 (* Items are strings (kind followed by the name) so that the emitted JSON  *)
 (* is compact.                                                             *)
 (***************************************************************************)
-EXTENDS Naturals, Sequences, FiniteSets, TLC
+EXTENDS FlatBody
 
 CONSTANTS MaxLen, MaxDepth, Names
-
-Kinds == {"O", "IO", "EO", "EIO", "C", "G", "IG", "EG", "EIG", "L"}
-Openers == {"O", "IO", "EO", "EIO"}
-GotoKinds == {"G", "IG", "EG", "EIG"}
-ElseKinds == {"EO", "EIO", "EG", "EIG"}
-IfKinds == {"IO", "EIO", "IG", "EIG"}          \* parts after which an else may follow
 
 Item(k, n) == [k |-> k, n |-> n]
 Items == {Item(k, "") : k \in Openers \cup {"C"}}
            \cup {Item(k, n) : k \in GotoKinds \cup {"L"}, n \in Names}
 
 (***************************************************************************)
-(* Structure of a flat body b (a sequence of items).  All operators take   *)
-(* the body explicitly so that the trace specification can reuse them.     *)
-(***************************************************************************)
-RECURSIVE CloseFrom(_, _, _)
-CloseFrom(b, i, d) ==
-    IF b[i].k = "C" THEN (IF d = 0 THEN i ELSE CloseFrom(b, i + 1, d - 1))
-    ELSE IF b[i].k \in Openers THEN CloseFrom(b, i + 1, d + 1)
-    ELSE CloseFrom(b, i + 1, d)
-\* index of the "}" matching the opener at o; the function body (o = 0) closes after the end
-CloseOf(b, o) == IF o = 0 THEN Len(b) + 1 ELSE CloseFrom(b, o + 1, 0)
-OpensAround(b, i) == { o \in 1..Len(b) : b[o].k \in Openers /\ o < i /\ CloseOf(b, o) > i }
-\* the innermost block containing item i (0 = the function body); an opener/closer belongs to its parent
-BlockOf(b, i) == LET os == OpensAround(b, i)
-                 IN IF os = {} THEN 0 ELSE CHOOSE o \in os : \A p \in os : p <= o
-Encloses(b, o, i) == o = 0 \/ (o < i /\ i < CloseOf(b, o))
-IsL(b, i) == b[i].k = "L"
-IsG(b, i) == b[i].k \in GotoKinds
-
-(***************************************************************************)
 (* R -- the rule (docs/features.md "Scoped goto statements", property C04) *)
 (***************************************************************************)
-\* label j is a legal target for a goto at i: later, in the same or an enclosing block
-Visible(b, j, i) == j > i /\ Encloses(b, BlockOf(b, j), i)
-LegalTargets(b, i) == { j \in 1..Len(b) : IsL(b, j) /\ b[j].n = b[i].n /\ Visible(b, j, i) }
-BadGoto(b, i) == IsG(b, i) /\ LegalTargets(b, i) = {}
-\* j < k clash: same name, and k is in the same block as j or later in an enclosing block of j
-ClashPair(b, j, k) == /\ IsL(b, j) /\ IsL(b, k) /\ j < k /\ b[j].n = b[k].n
-                      /\ Encloses(b, BlockOf(b, k), j)
-RuleE400(b) == { i \in 1..Len(b) : BadGoto(b, i) }
-RuleClashEarlier(b) == { j \in 1..Len(b) : \E k \in 1..Len(b) : ClashPair(b, j, k) }
-RuleClashMembers(b) == { i \in 1..Len(b) : \E j, k \in 1..Len(b) : ClashPair(b, j, k) /\ i \in {j, k} }
-RuleAccepts(b) == RuleE400(b) = {} /\ RuleClashMembers(b) = {}
+\* Visible, LegalTargets, BadGoto, ClashPair, RuleE400, RuleClashEarlier, RuleClashMembers and
+\* RuleAccepts are defined in FlatBody.tla (the variable scoper needs goto targets too).
 
 (***************************************************************************)
 (* The order in which the code visits the body.  Block::analyze and        *)
